@@ -44,7 +44,12 @@ def run(cmd, **kw):
 try:
     subprocess.check_call(["rsync", "-a", "--exclude", ".git", "--exclude", "__pycache__", "--exclude", "seed_out", "/repo/", d + "/"])
     env = dict(os.environ, PYTHONPATH=os.path.join(d, "src"), PYTHONDONTWRITEBYTECODE="1")
-    r = run(["/venv/bin/python", demo], cwd=d, env=env, timeout=900)
+    # demos may locate the tree relative to their own path (<tree>/seed_out/<X>/demo.py): run a copy from there
+    local = os.path.join(d, "seed_out", os.path.basename(os.path.normpath(a.seed)))
+    os.makedirs(local, exist_ok=True)
+    shutil.copy(demo, os.path.join(local, "demo.py"))
+    demo_run = os.path.join(local, "demo.py")
+    r = run(["/venv/bin/python", demo_run], cwd=d, env=env, timeout=900)
     meta["ran"].append({"step": "demo on clean tree", "exit": r.returncode, "tail": (r.stdout + r.stderr)[-300:]})
     print(f"[1] demo on clean copy: exit {r.returncode} {'OK' if r.returncode == 0 else 'UNEXPECTED'}")
     ok &= r.returncode == 0
@@ -61,7 +66,7 @@ try:
         meta["ran"].append({"step": "repository test suite with the change", "exit": r.returncode, "summary": last})
         print(f"[2] repo test suite with the change: exit {r.returncode}: {last} ({time.time() - t0:.0f}s)")
         ok &= r.returncode == 0 and "151 passed" in last
-    r = run(["/venv/bin/python", demo], cwd=d, env=env, timeout=900)
+    r = run(["/venv/bin/python", demo_run], cwd=d, env=env, timeout=900)
     meta["ran"].append({"step": "demo with the change", "exit": r.returncode, "tail": (r.stdout + r.stderr)[-400:]})
     print(f"[3] demo with the change: exit {r.returncode} {'OK (fails)' if r.returncode != 0 else 'UNEXPECTED (passes)'}")
     ok &= r.returncode != 0
